@@ -58,9 +58,14 @@ impl CaoLangAllocator {
         Self {
             runtime: vm,
             allocated: AtomicUsize::new(0),
-            next_gc: AtomicUsize::new((limit / 4).max(16)),
+            next_gc: AtomicUsize::new(Self::min_gc_threshold(limit)),
             limit: AtomicUsize::new(limit),
         }
+    }
+
+    /// Collections are not triggered below this many allocated bytes
+    fn min_gc_threshold(limit: usize) -> usize {
+        (limit / 4).max(16)
     }
 
     /// # Safety
@@ -68,21 +73,26 @@ impl CaoLangAllocator {
     /// the allocator at a time
     pub unsafe fn alloc(&self, l: Layout) -> Result<NonNull<u8>, AllocError> {
         let s = l.size() + l.align();
-        let allocated = s + self.allocated.fetch_add(s, Ordering::Relaxed);
-        if allocated > self.limit.load(Ordering::Relaxed) {
-            // nothing was allocated: give back what was charged
-            self.allocated.fetch_sub(s, Ordering::Relaxed);
-            return Err(AllocError::OutOfMemory);
-        }
-        if allocated > self.next_gc.load(Ordering::Relaxed) {
-            self.next_gc.store(allocated * 2, Ordering::Relaxed);
+        let mut allocated = s + self.allocated.fetch_add(s, Ordering::Relaxed);
+        let limit = self.limit.load(Ordering::Relaxed);
+        // collect when the threshold is crossed, and always before refusing a request
+        if allocated > self.next_gc.load(Ordering::Relaxed) || allocated > limit {
+            let allocated_before = allocated;
             unsafe {
                 (*self.runtime).gc();
             }
-            debug!(
-                "GC done. Allocated before: {allocated}. Allocated now: {}",
-                self.allocated.load(Ordering::Relaxed)
+            allocated = self.allocated.load(Ordering::Relaxed);
+            // collect again when the data that survived has doubled
+            self.next_gc.store(
+                (allocated * 2).max(Self::min_gc_threshold(limit)),
+                Ordering::Relaxed,
             );
+            debug!("GC done. Allocated before: {allocated_before}. Allocated now: {allocated}");
+        }
+        if allocated > limit {
+            // nothing was allocated: give back what was charged
+            self.allocated.fetch_sub(s, Ordering::Relaxed);
+            return Err(AllocError::OutOfMemory);
         }
         let ptr = alloc(l);
         Ok(NonNull::new(ptr).unwrap())
